@@ -1,6 +1,8 @@
 package main
 
 import (
+	"time"
+	"archive/tar"
 	"bytes"
 	"encoding/json"
 	"fmt"
@@ -15,6 +17,8 @@ import (
 type seqP struct {
 	Exotic  bool     `json:"exotic,omitempty"`
 	Twins   bool     `json:"twins,omitempty"`
+	Root    string   `json:"root,omitempty"` // C17: the drive starts as a foreign archive holding only a top-level directory of this name
+	RootFmt string   `json:"rootfmt,omitempty"`
 	Cfg     Cfg      `json:"cfg"`
 	Steps   int      `json:"steps"`
 	Comps   []string `json:"comps,omitempty"`
@@ -696,6 +700,22 @@ func seqRun(prop, tier string, c Case, w *Worker) (res Result) {
 			return
 		}
 		rig.LocksSettled()
+	}
+	if p.Root != "" {
+		var buf bytes.Buffer
+		tw := tar.NewWriter(&buf)
+		format := map[string]tar.Format{"ustar": tar.FormatUSTAR, "pax": tar.FormatPAX, "gnu": tar.FormatGNU}[p.RootFmt]
+		if err := tw.WriteHeader(&tar.Header{Typeflag: tar.TypeDir, Name: p.Root, Mode: 0o755, ModTime: time.Unix(1650000000, 0), Format: format}); err != nil {
+			res.Verdict, res.Msg = "inconclusive", "writing the foreign root: "+err.Error()
+			return
+		}
+		_ = tw.Close()
+		if err := os.WriteFile(rig.Drive, buf.Bytes(), 0o666); err != nil {
+			res.Verdict, res.Msg = "inconclusive", err.Error()
+			return
+		}
+		h.kind = "rooted"
+		res.setAdd("roots", p.RootFmt+" "+p.Root)
 	}
 	if err := rig.Init(); err != nil {
 		h.violate("init", "Initialize on an empty drive failed: %v", err)
